@@ -75,18 +75,18 @@ Print Assumptions c13_sticky_leave_keeps.
 
 (* sticky is sticky, join (identical subscriptions, each topic listed once, every topic of the map subscribed - what
    consumerGroup.balance passes): p a valid balanced plan of the old group ms, the old members report what they hold in p, the new
-   member reports nothing: every partition either stays with its old owner or goes to the new member - no partition moves
+   member arrives with user data without claims (nil user data decodes so): every partition either stays with its old owner or goes to the new member - no partition moves
    between old members.  Proof: sortPartitions lists the partitions round robin over the members (always one with the most left),
    so during the single modifying pass the old members stay within one of each other, the new member stays the strict minimum and
    is the target of every reassignment; afterwards everybody is within one and the next pass stops at isBalanced. *)
-Theorem c13_sticky_join_no_shuffle : forall fuel o ms ts p g newm p',
+Theorem c13_sticky_join_no_shuffle : forall fuel o ms ts p g newm ge p',
   wf_members (newm :: ms) -> wf_topics ts -> identical_subscriptions (newm :: ms) ->
   (forall mm, In mm (newm :: ms) -> NoDup (m_topics mm)) ->
   (forall t ps, In (t, ps) ts -> In t (m_topics newm)) ->
-  valid_plan ms ts p -> kafka_balanced ms p ->
-  sticky_plan fuel true o (map (report p g) (newm :: ms)) ts = SOk p' ->
+  m_ud newm = UD [] ge -> valid_plan ms ts p -> kafka_balanced ms p ->
+  sticky_plan fuel true o (newm :: map (report p g) ms) ts = SOk p' ->
   forall m x, In x (holds p m) -> In x (holds p' m) \/ In x (holds p' (m_id newm)).
-Proof. exact sticky_join_no_shuffle. Qed.
+Proof. exact sticky_join_no_shuffle_real. Qed.
 Print Assumptions c13_sticky_join_no_shuffle.
 
 (* partitions never swap owners pairwise within a topic: across a replan of the unchanged group (any subscriptions), across one
@@ -104,11 +104,11 @@ Theorem c13_sticky_no_pair_swap_leave : forall fuel o ms ts p g leaver p',
 Proof. exact sticky_no_pair_swap_leave. Qed.
 Print Assumptions c13_sticky_no_pair_swap_leave.
 
-Theorem c13_sticky_no_pair_swap_join : forall fuel o ms ts p g newm p',
+Theorem c13_sticky_no_pair_swap_join : forall fuel o ms ts p g newm ge p',
   wf_members (newm :: ms) -> wf_topics ts -> identical_subscriptions (newm :: ms) ->
   (forall mm, In mm (newm :: ms) -> NoDup (m_topics mm)) ->
   (forall t ps, In (t, ps) ts -> In t (m_topics newm)) ->
-  valid_plan ms ts p -> kafka_balanced ms p ->
-  sticky_plan fuel true o (map (report p g) (newm :: ms)) ts = SOk p' -> ~ pair_swap p p'.
-Proof. exact sticky_no_pair_swap_join. Qed.
+  m_ud newm = UD [] ge -> valid_plan ms ts p -> kafka_balanced ms p ->
+  sticky_plan fuel true o (newm :: map (report p g) ms) ts = SOk p' -> ~ pair_swap p p'.
+Proof. exact sticky_no_pair_swap_join_real. Qed.
 Print Assumptions c13_sticky_no_pair_swap_join.
